@@ -5,14 +5,41 @@ configuration sweeps)."""
 import os, re
 from vlib import core
 
-TRUST = ("Lean 4.33 kernel; axioms at most propext/Classical.choice/Quot.sound (audited per run); ")
+TRUST = ("Lean 4.33 kernel; axioms at most propext/Classical.choice/Quot.sound (audited per run by #audit_module); ")
 MANIFEST = dict(
-  text=("T2: the nu/M coefficient tables of CSvmTrainer::setupMcParameters{WWCS,ATMATS,ADMLLW,MMR} are regenerated as Lean "
-        "functions of the class count on every run and compared entry-wise (bit patterns / exact rationals) with the real QpSparseArrays for c=2..8."),
-  note=TRUST + "work in progress",
-  technique="Lean 4 proof on source-regenerated tables and a hand-written solver model + differential correspondence with the C++ (ASan/UBSan)",
+  text=("Theorems (Props/C16.lean, exact arithmetic, all sizes): (1) on the nu/M tables regenerated from CSvmTrainer::setupMcParameters{WWCS,ATMATS,ADMLLW,MMR} "
+        "on every run (T2, translate/mcsvm_tables.py): M_is_gram_of_nu for ALL class counts c>=2 and every family (M = <nu,nu'>, minus the mean for the "
+        "sum-to-zero families; WW/CS nu sum to zero), rows well-formed, loops write exactly `height` rows and never exceed the reserved capacity; "
+        "(2) on the hand-written model of QpMcBoxDecomp (Model/McSmo.lean): mc_tables_inv (example/variable tables mutually inverse, active split consistent), "
+        "mc_box_inv (0<=alpha<=C), mc_grad_inv (gradient of active variables = lin - (M(x)K) alpha) hold initially and are preserved by EVERY operation "
+        "(updateSMO incl. the 1-D/2-D box sub-solvers, gradientUpdate, deactivateVariable, deactivateExample, shrink, unshrink, addDeltaLinear), hence after every valid "
+        "finite history (induction over op lists), instantiated for the generated tables of every family and c>=2 (their symmetry is derived from M_is_gram_of_nu); "
+        "after unshrink the whole gradient is exact; (3) decision logic generated from CSvmTrainer::train / LinearCSvmTrainer::train: two_class_dispatch "
+        "(every formulation takes the binary path on two-class data), ova_is_binary_per_class (OVA never reaches the multi-class solvers), every other formulation uses one of the four table families; "
+        "(4) QpBoxLinear coordinate step (Model/McLinear.lean): linear_w_inv (w = sum alpha_i y_i x_i) and linear_box_inv along EVERY schedule, linear_step_gain_nonneg_partial; "
+        "(5) configuration invariance in exact arithmetic: mc_kkt_eps_near_optimal / two_stopped_configurations_close (any two feasible eps-KKT points of a concave box QP have "
+        "objectives within eps*N*C), stopped_state_near_optimal (link to the model through mc_grad_inv). Tie to the C++ on every run: entry-wise table dumps c=2..8 (bit patterns and exact "
+        "rationals); adversarial op sequences on the real QpMcBoxDecomp (protected members via a subclass, synthetic PSD integer/dyadic kernel matrices) compared line by line with the "
+        "Float instance of the model bit for bit and, whenever FE_INEXACT stayed clear, with the Rat instance exactly; one-epoch sweeps of the real QpBoxLinear along its observed "
+        "random schedule against the model; trainer level (oracle only): all 9 formulations x offset x shrinking x cache sizes x example permutations x batch sizes x 3 kernels on integer "
+        "data with 2-5 classes, decision values compared across configurations within the bound derived from the solver accuracy, plus box/simplex constraints, independently recomputed "
+        "gradient/KKT/objective, alpha->decision-function map, two-class = binary trainer bit for bit, OVA = per-class binary bit for bit, linear kernel vs dedicated linear solver; ASan/UBSan."),
+  note=TRUST + "PARTIAL. Proved only for the model: the decomposition model covers QpMcBoxDecomp (box formulations WW, LLW, ATS, reinforced); QpMcSimplexDecomp (CS, ATM, ADM, MMR: "
+       "mc_simplex_inv), selectWorkingSet beyond its first-order part, BiasSolver/BiasSolverSimplex, QpSolver::solve's loop and the multi-class linear solvers QpMcLinear* are NOT modelled — they are "
+       "covered by the trainer-level oracles only (simplex constraint is checked there up to 1e-12 relative slack: the code itself exceeds C by an ulp). linear_step_gain_nonneg is partial "
+       "(hypothesis |x_i|^2+reg>0; the zero-vector case differs between IEEE inf and Rat division). Configuration invariance is a theorem about exact arithmetic with PSD as a hypothesis; "
+       "the Kronecker step (M Gram and K PSD imply M(x)K PSD) is not formalised; that the real solver reaches the accuracy, and all floating-point effects, are exercised by the correspondence only; "
+       "the decision-value tolerance 2*sqrt(2*eps*n*P*C)*sqrt(k(x,x)) is derived on paper from the proved objective bound. perm_examples_equivariant, uniform_sweep_visits_all, linear_stop_weak and "
+       "primal_dual_gap of the design are not proved. The translator is trusted to render the C++ subset faithfully (mitigated by the dumps and by comparing the generated decision logic with the path "
+       "the real trainer takes). Findings: F-C16-1 (label(i) after shrinking; patch proposed), F-C16-2 (multi-class offset solver is trajectory dependent; no validated patch) — see findings_proposed/C16.md; "
+       "on a tree without the F-C16-1 patch the check reports it as a violation by design.",
+  technique="Lean 4 invariant proofs by induction over operation histories on a hand-written solver model + source-regenerated tables and decision logic (T2) + differential correspondence with the C++ "
+            "(exact / bit / toleranced modes, ASan/UBSan) + independent trainer-level property oracles",
   design="§6 C16")
-FINISH = dict(level="proof", rule="table dumps for every generated table and c=2..8")
+FINISH = dict(level="proof",
+              rule="cases = (a) one table dump per generated table and c=2..8, (b) op histories on QpMcBoxDecomp from one SplitMix64 stream (family, c=2..5, n=2..6, C, linear part, PSD kernel matrix, "
+                   "ops smo/deactvar/killex/deactex/shrink/unshrink/adddelta/label/select1), (c) QpBoxLinear sweep histories, (d) trainer runs = (data set, formulation, offset, configuration); "
+                   "distinct = distinct op text; a box/linear history is non-trivial if it has more than 3 ops")
 LAKE_TARGETS = ["SharkVerif.Props.C16", "drv_c16"]
 SRC = ["src/Core/Random.cpp"]
 TABLES = ["WWCS_nu", "WWCS_M", "ATMATS_nu", "ATMATS_M", "ADMLLW_nu", "ADMLLW_M", "MMR_nu", "MMR_M"]
@@ -330,10 +357,14 @@ def centre(vals, outputs):
     return res
 
 
-def run_harness_lines(exe, ops, timeout=900):
+def run_harness_lines(exe, ops, timeout=240):
     e = dict(os.environ); e["OMP_NUM_THREADS"] = "1"
     e.setdefault("ASAN_OPTIONS", "detect_leaks=0:abort_on_error=0")
-    p = subprocess.run([exe], input="\n".join(ops) + "\n", capture_output=True, text=True, errors="replace", env=e, timeout=timeout)
+    try:
+        p = subprocess.run([exe], input="\n".join(ops) + "\n", capture_output=True, text=True, errors="replace", env=e, timeout=timeout)
+    except subprocess.TimeoutExpired as ex:
+        out = ex.stdout.decode(errors="replace") if isinstance(ex.stdout, bytes) else (ex.stdout or "")
+        return -99, out.splitlines(), f"runtime error: harness did not finish within {timeout}s"
     return p.returncode, p.stdout.splitlines(), p.stderr[-3000:]
 
 
@@ -489,12 +520,15 @@ def trainer_sweeps(ctx, exe, nds, disp=None, corpus=()):
         ctx.count("corpus_train_cases")
         if key: report_train(ctx, exe, seen, key, what, ops)
     for _ in range(nds):
+        if len(seen) >= 3:
+            ctx.log("trainer sweeps: three distinct violations already reported, stopping the sweep early")
+            break
         ds = gen_dataset(r, ctx.quick)
         n, k = ds["n"], ds["k"]
         kern = r.choice(["lin", "lin", "poly", "rbf"])
         C = r.choice(["0.5", "1", "2", "4"])
         eps = r.choice(["1e-3", "1e-3", "1e-5"])
-        forms = FORMS if not ctx.quick else [r.choice(FORMS) for _ in range(3)]
+        forms = FORMS if not ctx.quick else [r.choice(FORMS) for _ in range(4)]
         ctx.hist("train_classes", k); ctx.hist("train_examples", n); ctx.hist("train_kernel", kern); ctx.hist("train_eps", eps)
         for F in forms:
             for bias in (0, 1):
@@ -537,7 +571,7 @@ def run(ctx):
     core.correspond(ctx, "K-C16-tables", cases, [exe], [drv], classify, keep_prefix=0)
     # decomposition-class op sequences
     r = ctx.rng.fork("c16-box")
-    nbox, maxlen = (150, 40) if ctx.quick else (1500, 150)
+    nbox, maxlen = (400, 50) if ctx.quick else (3000, 150)
     bcases = [c for c in corpus if c[0].startswith("box")]
     bcases += [gen_box_case(r, maxlen, ctx) for _ in range(nbox)]
     for c in bcases:
@@ -548,7 +582,7 @@ def run(ctx):
     ctx.sample({"box_ops": bcases[len(bcases) // 2][:8]})
     correspond_box(ctx, "K-C16-box", bcases, [exe], [drv])
     # dedicated linear solver, one-epoch sweeps along the observed schedule
-    lcases = [gen_linear_case(r, 6 if ctx.quick else 25, ctx) for _ in range(60 if ctx.quick else 600)]
+    lcases = [gen_linear_case(r, 6 if ctx.quick else 25, ctx) for _ in range(150 if ctx.quick else 1500)]
     lcases = add_schedules(exe, lcases)
     ctx.cov["evaluations"] += len(lcases)
     ctx.cov["distinct_nontrivial"] += len({"\n".join(c) for c in lcases})
@@ -556,7 +590,7 @@ def run(ctx):
     correspond_box(ctx, "K-C16-linear", lcases, [exe], [drv])
     # trainer level
     tcorp = [c for c in corpus if c[0].startswith("data")]
-    trainer_sweeps(ctx, exe, 10 if ctx.quick else 60, dispatch_table(drv), tcorp)
+    trainer_sweeps(ctx, exe, 30 if ctx.quick else 150, dispatch_table(drv), tcorp)
     ctx.sample({"theorems": ["M_is_gram_of_nu", "mc_tables_inv", "mc_box_inv", "mc_grad_inv", "two_class_dispatch",
                              "ova_is_binary_per_class", "linear_w_inv", "linear_box_inv", "linear_step_gain_nonneg_partial"]})
 
